@@ -52,21 +52,24 @@ def adequacy(ctx, prop: str):
         patch = os.path.join(VERIF, "seeded", seed, "patch.diff")
         if row.get(prop, {}).get("rc") == 1 and os.path.exists(patch):
             jobs.append(("seeded", seed, prop, patch))
-    os.environ["SPVERIF_NESTED"] = "1"
     res = {"caught": [], "failed_closed": [], "silent_benign": [], "stale": [], "lost": [], "false_alarm": []}
     workers = min(16, os.cpu_count() or 4)
-    with cf.ThreadPoolExecutor(max_workers=workers) as ex:
-        for kind, name, _p, rc, info in ex.map(R.one, jobs):
-            if rc == "BROKEN-VARIANT":
-                res["stale"].append(name)
-            elif kind == "benign":
-                (res["silent_benign"] if rc == 0 else res["false_alarm"]).append(name if rc == 0 else f"{name} (exit {rc}: {info})")
-            elif rc == 1:
-                res["caught"].append(f"{name} {info}")
-            elif rc == 2:
-                res["failed_closed"].append(name)
-            else:
-                res["lost"].append(name)
+    os.environ["SPVERIF_NESTED"] = "1"          # the sub-runs are quick runs of the same check on the scratch copies
+    try:
+        with cf.ThreadPoolExecutor(max_workers=workers) as ex:
+            for kind, name, _p, rc, info in ex.map(R.one, jobs):
+                if rc == "BROKEN-VARIANT":
+                    res["stale"].append(name)
+                elif kind == "benign":
+                    (res["silent_benign"] if rc == 0 else res["false_alarm"]).append(name if rc == 0 else f"{name} (exit {rc}: {info})")
+                elif rc == 1:
+                    res["caught"].append(f"{name} {info}")
+                elif rc == 2:
+                    res["failed_closed"].append(name)
+                else:
+                    res["lost"].append(name)
+    finally:
+        os.environ.pop("SPVERIF_NESTED", None)
     ctx.stats["adequacy"] = {k: (v if k in ("lost", "false_alarm", "stale") else len(v)) for k, v in res.items()}
     ctx.stats["adequacy_variants"] = len(jobs)
     ctx.ob("ADEQ", f"{len(jobs)} variants of the current tree: {len(res['caught'])} reported, {len(res['failed_closed'])} fail closed, "
